@@ -5,7 +5,13 @@ networks (written from the documentation, no edzed code is used or imported here
 Plan format (everything is referenced by *name*, so that the minimiser may delete list
 entries freely; a dangling reference is a PlanError):
 
-  srcs   [{'name': 's0', 'init': bool}]           Inputs driven by the test driver
+  srcs   [{'name': 's0', 'init': bool}]           Inputs driven by the test driver; optional
+                                                  'picky': 'T'|'F'|'both' = the source has an
+                                                  on_output event to a second Input 's0p' whose
+                                                  type is unknown to it when the new value is
+                                                  True / False / always (EdzedUnknownEvent is
+                                                  documented as non-fatal: the put changes the
+                                                  output, the caller gets the exception)
   evin   [{'name': 'x0', 'from': 'b2', 'inv': bool, 'init': bool, 'hop': bool}]
                                                   Input fed by on_output 'put' events of the
                                                   CBlock 'from' (inv: an event filter negates
@@ -13,7 +19,10 @@ entries freely; a dangling reference is a PlanError):
                                                   second Input 'x0h' that forwards it)
   blocks [{'name': 'b0', 'op': 'not'|'id'|'and'|'xor', 'ins': [...]}]     in creation order;
          an input is a block name, a literal true/false (edzed wraps it in a Const) or
-         {'const': bool} (an explicit edzed.Const object); a block may have constants only
+         {'const': bool} (an explicit edzed.Const object); a block may have constants only;
+         optional 'stop': {'ev': 'shutdown'|'abort', 'when': 'rise'|'rise_nu'|'fall'|'any'|'all',
+         'first': bool} = an on_output event to the control block '_ctrl' that requests the end
+         of the simulation from inside an evaluation round (filtered by Edge / not_from_undef)
   ops    [{'puts': [[src, bool], ...]}]           one burst of external 'put' events each, all
                                                   sent without yielding (1-16 puts)
 
@@ -34,6 +43,8 @@ Documented semantics used by the model:
 from __future__ import annotations
 
 OPS = ('not', 'id', 'and', 'xor')
+
+STOP_WHEN = ('rise', 'rise_nu', 'fall', 'any', 'all')
 
 # internal names of constant inputs: literal / explicit Const object, value
 CONST_NAMES = {'#T': True, '#F': False, '#CT': True, '#CF': False}
@@ -84,13 +95,23 @@ class Net:
                          for e in plan.get('evin', [])]
             self.blocks = [(b['name'], b['op'], [norm_input(i) for i in b['ins']])
                            for b in plan['blocks']]
+            self.picky = {s['name']: s['picky'] for s in plan['srcs'] if s.get('picky')}
+            self.stops = {b['name']: (b['stop']['ev'], b['stop']['when'],
+                                      bool(b['stop'].get('first')))
+                          for b in plan['blocks'] if b.get('stop')}
         except (KeyError, TypeError, ValueError) as err:
             raise NetError(f"malformed plan: {err!r}") from None
+        if any(v not in ('T', 'F', 'both') for v in self.picky.values()):
+            raise NetError("malformed picky source")
+        if any(ev not in ('shutdown', 'abort') or when not in STOP_WHEN
+               for ev, when, _f in self.stops.values()):
+            raise NetError("malformed stop request")
         self.src_names = [s[0] for s in self.srcs]
         self.blk_names = [b[0] for b in self.blocks]
         self.ev_names = [e['name'] for e in self.evin]
         names = self.src_names + self.blk_names + self.ev_names
         names += [e['name'] + 'h' for e in self.evin if e['hop']]
+        names += [n + 'p' for n in self.picky]
         if len(set(names)) != len(names) or not all(
                 isinstance(n, str) and n and not n.startswith('#') for n in names):
             raise NetError("names not unique")
@@ -132,7 +153,8 @@ class Net:
                     row.append(('s', i, False))
             self.cins.append(row)
         self.nblk = len(self.blocks)
-        self.nall = len(names)      # every block of the circuit
+        # every block of the circuit; '_ctrl' is created automatically when it is referenced
+        self.nall = len(names) + (1 if self.stops else 0)
         # block -> block edges; direct ones and those that go through an event
         self.pred_direct = [sorted({c[1] for c, i in zip(row, ins) if c[0] == 'b' and i in self.bidx})
                             for row, (_n, _o, ins) in zip(self.cins, self.blocks)]
@@ -415,6 +437,15 @@ def gen_net(rng, tier, index):
         for s, v in puts:
             cur[s] = v
         ops.append({'puts': puts})
+    if rng.random() < 0.15:
+        # an output event of a source is refused by its recipient for one or both values
+        rng.choice(srcs)['picky'] = rng.choice(['T', 'T', 'F', 'F', 'both'])
+    if rng.random() < 0.15:
+        # a block asks '_ctrl' to end the simulation from inside an evaluation round
+        rng.choice(blocks)['stop'] = {
+            'ev': rng.choice(['shutdown', 'abort']),
+            'when': rng.choice(['rise', 'rise_nu', 'rise_nu', 'fall', 'fall', 'any', 'any', 'all']),
+            'first': rng.random() < 0.5}
     order = list(range(nblk))
     rng.shuffle(order)                      # creation order is independent of the topology
     return {'kind': kind, 'srcs': srcs, 'evin': evin, 'blocks': [blocks[k] for k in order],
